@@ -400,7 +400,7 @@ class C04(Check):
 
     def run_corpus(self, ctx):
         texts = [e['text'] for e in self.corpus(ctx)]
-        self.check_sheets(ctx, texts, 'corpus')
+        self.check_sheets(ctx, texts, 'corpus', cuts=True)
 
     # -- model on sheets ------------------------------------------------------------------------------
     def model_sheets(self, ctx, toklists):
